@@ -23,7 +23,7 @@ def jobs(tier):
     J = []
     for N in (1, 2):
         for r in range(N + 1):
-            for L in (1, 2):
+            for L in (0, 1, 2):
                 J.append(dict(harness=('tableau', 'h_measure'), params=dict(N=N, r=r, L=L, goals='born'), timeout_s=300,
                               cost=10 * N * L))
     if tier == 'thorough':
